@@ -42,7 +42,7 @@ def spec_evaluator(world, label):
     fv._revealed = {}
     fv._newer_havoc, fv._fresh_order = {}, {}
     fv._soft_ids, fv.soft_mode = set(), False
-    fv._branch_ids = set()
+    fv._branch_ids, fv._proved_ids = set(), set()
     fv.proving = False
     fv._loop_entry = None
     fv.where = lambda node: ""
